@@ -1,0 +1,7 @@
+//go:build verif
+
+package repl
+
+// VerifMultiLine exposes the REPL's own incomplete-input classifier to a
+// verification harness.  Build tag: verif.
+func VerifMultiLine(err error) bool { return multiLine(err) }
